@@ -24,7 +24,7 @@
 From Coq Require Import List Arith Bool NArith ZArith.
 From SNT Require Import Base.Outcome Surface.Bounds Surface.Shape Surface.ShapeProofs
   Render.CellLayout Render.Writer Render.WriterFrame View.ViewModel View.LayoutProofs View.RenderProofs
-  View.PaintProofs View.FitsProofs.
+  View.PaintProofs View.FitsProofs View.DisjointProofs.
 Import ListNotations.
 Local Open Scope N_scope.
 
@@ -97,6 +97,22 @@ Proof. intros H W vc v t sh w s s' Hmax Hrep Hlen E. exact (render_log H W Hmax 
    rectangle contains the (relative) position and ends where no child contains it. *)
 Theorem C10_hit_test : forall (t : ltree) (r c : N), follows t r c (find_path (depth t) t r c).
 Proof. intros t r c. apply find_path_follows. apply Nat.le_refl. Qed.
+
+(* (6b) Siblings never share a point: in every layout tree View::layout produces -- whatever the view
+   tree, context (share function included) and constraint, valid or not -- the rectangles of the
+   children of every node are pairwise disjoint (only Flex has several children; its placing pass
+   starts every child where the previous one ended, saturating).  Hence hit-testing does not depend on
+   the order in which children are tried: a child that contains the position is the one found.
+   Layout trees built by hand (Layout::push at arbitrary positions) can overlap; for those (6) says the
+   first match wins. *)
+Theorem C10_siblings_disjoint : forall (vc : vctx) (v : vtree) (c : ct) (t : ltree),
+  layout vc v c = Ok t -> DisjTree t.
+Proof. exact layout_disjoint. Qed.
+
+Theorem C10_hit_order_free : forall (kids : list ltree) (i : nat) (k : ltree) (r c : N),
+  ForallOrdPairs no_common_point kids -> nth_error kids i = Some k -> contains k r c ->
+  find_child kids 0 r c = Some (i, k).
+Proof. exact disjoint_hit_unique. Qed.
 
 Check C10_layout_total : forall (vc : vctx) (v : vtree) (c : ct), Valid c -> exists t, layout vc v c = Ok t.
 Check C10_within : forall (vc : vctx) (v : vtree) (c : ct) (t : ltree),
@@ -184,3 +200,11 @@ Example C10_paint_all_leaves_nonvacuous :
   | _ => False
   end.
 Proof. vm_compute. split; reflexivity. Qed.
+
+(* two flex children side by side: disjoint, and the second is found for a position inside it *)
+Example C10_siblings_nonvacuous :
+  match layout ex_vc (VFlex Hor JStart [(VProbe 1 2 3, None, None, AStart); (VProbe 2 2 3, None, None, AStart)]) (mkCt 0 0 4 10) with
+  | Ok t => find_path (depth t) t 1 4 = [1%nat] /\ find_path (depth t) t 1 2 = [0%nat] /\ find_path (depth t) t 1 7 = []
+  | _ => False
+  end.
+Proof. vm_compute. repeat split. Qed.
